@@ -49,10 +49,20 @@ class FakeQueue:
             sched = self.ctx.schedule[w]
             if sched:
                 want = sched.popleft()
-                # the scheduled item must still be in the queue (each item delivered exactly once)
-                self.items.remove(want)
+                # the scheduled item must still be in the queue (each item delivered exactly once); match by identity
+                for j, x in enumerate(self.items):
+                    if x is want:
+                        del self.items[j]
+                        break
+                else:
+                    raise RuntimeError("scheduled item is not in the queue")
                 return want
-            self.items.remove(None)
+            for j, x in enumerate(self.items):
+                if x is None:
+                    del self.items[j]
+                    break
+            else:
+                raise RuntimeError("no poison pill left in the queue")
             return None
         return self.items.popleft() if self.items else None
 
@@ -199,12 +209,16 @@ def make_items(rng, n_items, faults=None):
     items = []
     pool = [b"", b"a", b"a\0", b"\0", b"bb", b"\xff\x80", b"key-%d" % rng.randrange(5)]
     for i in range(n_items):
-        ops = [(rng.choice(pool), rng.choice([1, 1, 2, 5])) for _ in range(rng.randrange(0, 4))]
+        ops = [(rng.choice(pool), rng.choice([1, 1, 2, 5])) for _ in range(rng.choice([0, 0, 1, 2, 3]))]  # 40 %: empty (falsy) item
         items.append({"id": i, "ops": ops, "ret": rng.randrange(0, 7), "fault": (faults or {}).get(i)})
     return items
 
 
-def callback(item, *sketches, **kwargs):
+META = {}  # id(payload) -> descriptor; the payload that travels through the queue is a plain list (possibly EMPTY, i.e. falsy)
+
+
+def callback(payload, *sketches, **kwargs):
+    item = META[id(payload)]
     if item["fault"] == "die":
         raise WorkerDied()
     if item["fault"] == "before":
@@ -236,10 +250,14 @@ def run_real(items, n_workers, got, kw, as_generator=False):
     s = sk()
     import sketchnu.helpers as H
 
-    ctx = FakeCtx([[items[i] for i in g] for g in got])
+    payloads = [list(it["ops"]) for it in items]
+    for pl, it in zip(payloads, items):
+        META[id(pl)] = it
+    ctx = FakeCtx([[payloads[i] for i in g] for g in got])
+    ctx.keepalive = payloads
     with Patched(ctx):
         try:
-            src = (x for x in items) if as_generator else list(items)
+            src = (x for x in payloads) if as_generator else list(payloads)
             r = H.parallel_add(src, callback, n_workers=n_workers, **kw)
             if not isinstance(r, tuple):
                 r = (r,)
